@@ -6,7 +6,7 @@ import subprocess
 import vlib
 
 META = {
-    "engine": "XmlText.tla,Trace_XmlText.tla",
+    "engine": "XmlText.tla,XmlTextSM.tla,Trace_XmlText.tla",
     "technique": "TLC model-checks XmlText.tla (document generator vs. strict recursive-descent recognizer vs. serializer, "
                  "all generated documents / prefixes / surplus and mismatched end tags) and emits one case per transition; "
                  "the cases are replayed on Xml::decode / Xml::encode under ASan+LSan with the normalized tree compared; "
@@ -16,7 +16,9 @@ META = {
     "level_text": "TLC explores every state of the XmlText.tla document generator within the configured bounds (prolog, "
                   "DOCTYPE with nested <>, comments, PIs, both quote styles, white space in tags, named/decimal/hex "
                   "references, raw non-ASCII bytes, surplus and mismatched end tags) and checks that generator, recognizer "
-                  "and serializer agree up to Normalize (GenRecAgree, PrefixNotDoc, BadRejected, EncodeRoundTrip). Every "
+                  "and serializer agree up to Normalize (GenRecAgree, PrefixNotDoc, BadRejected, EncodeRoundTrip), and that "
+                  "XmlTextSM.tla - a transcription of Xml::decode's 21-state character machine - returns the same trees and "
+                  "never pops its anonymous root (SMRefines, SMTotal, SMRoundTrip). Every "
                   "transition is one replay case: complete documents must decode to the specification's normalized tree, "
                   "all their byte prefixes and all faulty documents must decode to null or a tree with consistent parent "
                   "links, and the generated trees must survive Xml::encode (compact; indented when text is a sole child) "
@@ -56,10 +58,16 @@ def run(ctx):
     seen = set()
     for cfg in ctx.pick(["MC_XmlText_quick", "MC_XmlText_quick2"], ["MC_XmlText_thorough", "MC_XmlText_thorough2"]):
         cases = os.path.join(ctx.tmp, cfg + ".cases")
-        ctx.model("XmlText", cfg, emit_to=cases, timeout=ctx.pick(600, 3000), xmx="10g", xss="64m", must_cover=False)
+        ctx.model("XmlTextSM", cfg, emit_to=cases, timeout=ctx.pick(600, 3000), xmx="10g", xss="64m", must_cover=False)
         seen |= _actions_seen(cases)
         ctx.replay(rep, cases, label="R/" + cfg, timeout=ctx.pick(900, 5400))
         os.unlink(cases)
+    # design level: the decoder's state machine without the end-tag guard pops its anonymous root on "</>" - TLC finds
+    # it on the specification alone (documents the defect repaired by fixes/C07-close-anonymous-root)
+    r = vlib.tlc("XmlTextSM", "MC_XmlTextSM_unguarded", workers=2, timeout=300, xmx="2g", xss="64m")
+    if r.violated() != "SMTotal":
+        raise vlib.HarnessError("XmlTextSM/MC_XmlTextSM_unguarded: expected the counterexample to SMTotal, got exit %s\n%s" % (r.rc, r.tail(30)))
+    ctx.engines.append("XmlTextSM/MC_XmlTextSM_unguarded: SMTotal violated as expected (</> pops the anonymous root), %d states" % r.generated)
     missing = ACTIONS - seen
     if missing:
         raise vlib.HarnessError("XmlText: vacuous run, generator actions never taken: %s" % sorted(missing))
